@@ -10,8 +10,8 @@
    half then equals the uninterrupted mirror is the publish model of C03 plus
    the crash-injection correspondence (see DESIGN.md). *)
 From Coq Require Import List Arith Bool.
-From AM.Model Require Import Base Publish Lock Download Stage Converge.
-From AM.Lemmas Require Import PublishLemmas LockLemmas DownloadLemmas StageRunLemmas ConvergeLemmas.
+From AM.Model Require Import Base Publish Lock Download Stage Converge RepoRun PoolQueue Unpack ReleaseStage.
+From AM.Lemmas Require Import PublishLemmas LockLemmas DownloadLemmas StageRunLemmas ConvergeLemmas TwinStage ReleaseStageLemmas.
 Import ListNotations.
 
 Theorem crash_state_visible :
@@ -70,3 +70,26 @@ Theorem rerun_reaches_the_uninterrupted_pool :
   forall p, sizes t_rerun p = sizes t_uninterrupted p /\ sizes t_rerun p = declared files p.
 Proof. exact rerun_pool_lemma. Qed.
 Print Assumptions rerun_reaches_the_uninterrupted_pool.
+
+(* The whole rerun (Model/ReleaseStage.v): [crashed] / [crashed_mirror] are ANY state a kill may have left in
+   skel and in the mirror directory - half-written release files, indices of the interrupted version, a stale
+   unpacked index, truncated or padded pool files -, [clean] / [clean_mirror] what an uninterrupted history
+   left.  When the next run succeeds from both, it stages the same view, reads the same pool queue and leaves the
+   same pool, exactly what the queue declares: the mirror after the rerun is the uninterrupted one. *)
+Theorem rerun_reaches_the_uninterrupted_mirror :
+  forall relq retries validf metaq_of sbf pbf read u
+         (ann : dfile -> option (variant * N * Z)) (ann2 : dfile -> variant * N * Z)
+         crashed crashed_mirror clean clean_mirror va qa pa vb qb pb,
+  disjoint_files relq -> (forall f, In f relq -> rel_definite u ann f) ->
+  (forall x y, agrees_on (rel_paths relq) x y ->
+     validf x = validf y /\ metaq_of x = metaq_of y /\ sbf x = sbf y /\ pbf x = pbf y) ->
+  (forall s, announced_rel ann relq s ->
+     disjoint_files (metaq_of s) /\
+     (forall f, In f (metaq_of s) -> good_meta f u (fst (fst (ann2 f))) (snd (fst (ann2 f))) (snd (ann2 f))) /\
+     (forall p, In p (rel_paths relq) -> ~ In p (flat_map all_paths (metaq_of s)))) ->
+  repo_run_full relq retries validf metaq_of sbf pbf read u crashed crashed_mirror = Some (va, qa, pa) ->
+  repo_run_full relq retries validf metaq_of sbf pbf read u clean clean_mirror = Some (vb, qb, pb) ->
+  consistent_files qa -> forallb required_pool_file qa = true ->
+  va = vb /\ qa = qb /\ forall p, sizes pa p = sizes pb p /\ sizes pa p = declared qa p.
+Proof. exact repo_run_full_function_of_upstream. Qed.
+Print Assumptions rerun_reaches_the_uninterrupted_mirror.
